@@ -16,7 +16,7 @@ RULE = (
     "built by HyperLogLog.add over n keys), 'sim' (index uniform, rank geometric capped at 64-p+1, load 0.01..100 keys/register), "
     "'small' (uniform ranks 0..k), 'const' (all-equal rank r incl. the maximum, optionally one zero register), 'lc_boundary' (V zero "
     "registers = the integers around m*exp(-threshold/m), d in -2..+2, rest random small ranks), 'raw_boundary' (no zero register, "
-    "a registers of rank 2 and m-a of rank 3 with a = the integers around the solution of raw==5m, d in -2..+2). Oracle: numpy/"
+    "a registers of rank 2 and m-a of rank 3 with a = the integers around the solution of raw==5m, d in -2..+2), 'raw_fine' (no zero register, ranks chosen by binary expansion so that the raw estimate is 5m+delta for delta from -1.5 to +2.5 in steps down to 0.001). Oracle: numpy/"
     "integer model of exactly the stated estimator (evaluated for the assigned array and again after merging a second array into the already-queried sketch) with the shipped tables indexed by p-7; |query-model| <= 1e-9*max(1,model); a case "
     "within 1e-9 relative of a branch boundary is accepted on either branch (counted). Table facts asserted per p: raw_estimate "
     "strictly increasing, raw_estimate[0]-bias[0]==threshold to 1e-6. Non-trivial: the array is not all-zero and not decided by "
@@ -27,7 +27,7 @@ ASSUMPTIONS = [
     "alpha = 0.7213/(1+1.079/m) as in the HyperLogLog paper for m >= 128",
 ]
 
-KINDS = ["real", "sim", "sim", "small", "const", "lc_boundary", "lc_boundary", "raw_boundary", "raw_boundary"]
+KINDS = ["real", "sim", "sim", "small", "const", "lc_boundary", "lc_boundary", "raw_boundary", "raw_boundary", "raw_fine", "raw_fine"]
 
 
 def build(case):
@@ -74,6 +74,27 @@ def build(case):
         a = max(0, min(m, a))
         reg = np.full(m, 3, np.uint8)
         reg[rng.permutation(m)[:a]] = 2
+        return reg
+    if kind == "raw_fine":
+        # no zero register and a raw estimate placed at 5m + delta with |delta| down to 1e-3: a registers of
+        # rank 2, t registers with distinct ranks 4..3+t (binary expansion of the remainder), the rest rank 3
+        alpha = 0.7213 / (1.0 + 1.079 / m)
+        target = 5.0 * m + case["delta"]
+        S = alpha * m * m / target  # required sum of 2^-r
+        t = min(30, 64 - p - 4)
+        a = int(math.floor((S - (m - t) / 8.0) * 8.0))
+        a = max(0, min(m - t, a))
+        R = S - (a / 4.0 + (m - a - t) / 8.0)
+        ranks = []
+        for j in range(4, 4 + t):
+            if R >= 2.0 ** (-j):
+                ranks.append(j)
+                R -= 2.0 ** (-j)
+        reg = np.full(m, 3, np.uint8)
+        perm = rng.permutation(m)
+        reg[perm[:a]] = 2
+        for i_, j in enumerate(ranks):
+            reg[perm[a + i_]] = j
         return reg
     raise ValueError(kind)
 
@@ -122,6 +143,8 @@ def cases(draw):
         case["zero"] = draw(st.booleans())
     if kind in ("lc_boundary", "raw_boundary"):
         case["d"] = draw(st.integers(-2, 3))
+    if kind == "raw_fine":
+        case["delta"] = draw(st.sampled_from([-1.5, -0.5, -0.01, -0.001, 0.001, 0.01, 0.25, 0.5, 0.75, 0.99, 0.999, 1.001, 1.01, 1.5, 2.5]))
     return case
 
 
@@ -167,6 +190,14 @@ def grid(rec):
                     rec.violation(case, v.msg, v.signature)
                     continue
                 rec.case(case, True, [f"branch={branch}", f"kind={kind}", "grid"])
+        for delta in (-0.5, -0.001, 0.001, 0.5, 0.999, 1.001, 1.5):
+            case = {"p": p, "kind": "raw_fine", "rs": 2000 + p, "delta": delta}
+            try:
+                branch, reg = check_case(case)
+            except Violation as v:
+                rec.violation(case, v.msg, v.signature)
+                continue
+            rec.case(case, True, [f"branch={branch}", "kind=raw_fine", "grid"])
         for k, zero in [(0, False), (1, False), (1, True), (64 - p + 1, False), (64 - p + 1, True), (3, False), (2, False)]:
             case = {"p": p, "kind": "const", "rs": 7, "k": k, "zero": zero}
             try:
